@@ -385,6 +385,91 @@ theorem admin_reorder_breaks_it :
     ((run init exAdminReload).map fun s => ((s.asocks exM0).gens, (s.asocks exM0).pool, s.admRetired)) = some ([1], 1, []) := by
   decide
 
+/-! ### the usage count the HTTP app's Stop reads (shutdown_delay decision) -/
+
+/-- **At the moment the replaced config is stopped, a tcp address the new config keeps has a usage count
+    of at least 2** (the old listener is still open, the new one was bound before the swap): the test
+    `ListenerUsage < 2` of `(*App).Stop` does not fire for it — shutdown_delay is not enforced because
+    of a listener that stays. -/
+theorem retained_tcp_usage_at_least_two_at_stop {s : State} (h : Reach s) {o c : Cfg}
+    (hr : s.retiring = some o) (hc : s.cur = some c) {a : Addr} (hu : a.unix = false)
+    (hao : s.holds a o.gen = true) (hac : a ∈ c.addrs) : 2 ≤ (s.socks a).pool := by
+  have hi := h.inv
+  rw [(hi.books a).tcpPool hu]
+  obtain ⟨x, hx, hxg⟩ := (Sock.holds_iff _ _).mp hao
+  obtain ⟨y, hy, hyg⟩ := (Sock.holds_iff _ _).mp (hi.curHolds c hc a hac)
+  have hne : x ≠ y := fun e => hi.curNeRet c o hc hr (by rw [← hyg, ← hxg, e])
+  cases hl : (s.socks a).hs with
+  | nil => rw [hl] at hx; cases hx
+  | cons z t =>
+    cases t with
+    | nil =>
+      rw [hl] at hx hy
+      simp at hx hy
+      exact absurd (hx.trans hy.symm) hne
+    | cons z2 t2 => simp
+
+/-- … and a tcp address the new config drops has a usage count of exactly 1: the test fires exactly for
+    the listeners that are about to close. -/
+theorem closing_tcp_usage_is_one_at_stop {s : State} (h : Reach s) {o : Cfg}
+    (hr : s.retiring = some o) (hn : s.next = none) {a : Addr} (hu : a.unix = false)
+    (hao : s.holds a o.gen = true) (hna : ∀ c, s.cur = some c → a ∉ c.addrs) : (s.socks a).pool = 1 := by
+  have hi := h.inv
+  rw [(hi.books a).tcpPool hu]
+  have hall : ∀ x, x ∈ (s.socks a).hs → x.gen = o.gen := by
+    intro x hx
+    rcases hi.owner a x hx with ho | ho | ho | ho
+    · cases hc : s.cur with
+      | none => simp [genOf, hc] at ho
+      | some c =>
+        simp [genOf, hc] at ho
+        exact absurd (hi.membCur c a hc (ho ▸ mem_hs_holds hx)) (hna c hc)
+    · simp [genOf, hn] at ho
+    · simpa [genOf, hr] using ho.symm
+    · rw [h.noZombies] at ho; cases ho
+  obtain ⟨x, hx, _⟩ := (Sock.holds_iff _ _).mp hao
+  have hnd := hi.nodup a
+  cases hl : (s.socks a).hs with
+  | nil => rw [hl] at hx; cases hx
+  | cons z t =>
+    cases t with
+    | nil => rfl
+    | cons z2 t2 =>
+      rw [hl] at hall hnd
+      have e1 := hall z (by simp)
+      have e2 := hall z2 (by simp)
+      simp [e1, e2] at hnd
+
+/-- **For tcp the decision is exact**: at stop time, `ListenerUsage < 2` for an address of the replaced
+    config iff the new config does not keep it. -/
+theorem shutdown_delay_decision_exact_for_tcp {s : State} (h : Reach s) {o c : Cfg}
+    (hr : s.retiring = some o) (hc : s.cur = some c) (hn : s.next = none) {a : Addr} (hu : a.unix = false)
+    (hao : s.holds a o.gen = true) : (s.socks a).pool < 2 ↔ a ∉ c.addrs := by
+  constructor
+  · intro hlt hac
+    have := retained_tcp_usage_at_least_two_at_stop h hr hc hu hao hac
+    omega
+  · intro hna
+    have := closing_tcp_usage_is_one_at_stop h hr hn hu hao (fun c' hc' => by rw [hc] at hc'; cases hc'; exact hna)
+    omega
+
+/-- (as the code is) a retained unix socket has a usage count of 1 at stop time — taking the socket over
+    does not touch `listenerPool` — so `shutdown_delay` is enforced although the listener stays.
+    Observed on the implementation (block field `sd`); not a clause of C02: the address keeps being
+    served, by the old config during the delay. -/
+theorem retained_unix_usage_is_one_at_stop :
+    ((run init ([.begin ⟨0, [exU0]⟩, .bind exU0, .swap, .ret, .begin ⟨1, [exU0]⟩, .bind exU0, .cb .started 1, .swap])).map
+      fun s => ((s.socks exU0).pool, (s.socks exU0).ucnt, s.holders exU0, genOf s.retiring)) = some (1, 2, 2, some 0) := by
+  decide
+
+-- the hypotheses of the three theorems above, met right after the swap of a reload that keeps t0 and drops u0
+example : ((run init (reloadSteps exOld none (.mk 2 0 1 0 0 0) ++
+      [.begin ⟨1, [exT0]⟩, .bind exT0, .cb .started 1, .swap])).map
+    fun s => (genOf s.retiring, genOf s.cur, genOf s.next)) = some (some 0, some 1, none) := by decide
+example : ((run init (reloadSteps exOld none (.mk 2 0 1 0 0 0) ++
+      [.begin ⟨1, [exT0]⟩, .bind exT0, .cb .started 1, .swap])).map
+    fun s => (s.holds exT0 0, (s.socks exT0).pool, s.holds exU0 0, (s.socks exU0).pool)) = some (true, 2, true, 1) := by decide
+
 /-! ### the consumer of the usage count, tied to the source -/
 
 /-- **usage_key_expression_matches_source.**  `(*App).Stop` contains exactly one `caddy.ListenerUsage`
